@@ -127,6 +127,9 @@ var opAlphabet = []string{
 	`query Q($s: Style) {user(id: "u3") {friends {greeting(style: $s)}}}§{}`,
 	`query Q($s: Style) {user(id: "u3") {friends {greeting(style: $s)}}}§{"s":null}`,
 	`query Q($s: Style) {user(id: "u3") {friends {greeting(style: $s)}}}§{"s":"LOUD"}`,
+	// SINGLE (not batched) entity fetches with one selection for different entities
+	`{user(id: "u1") {reviews {stars}}}`,
+	`{user(id: "u3") {reviews {stars}}}`,
 }
 
 // splitOp splits an alphabet entry into operation text and variables.
